@@ -4,7 +4,9 @@ edge cover), the harness replays them on the real tree, TLC validates the record
 traces; property predicates that fail on a recorded real state are violations."""
 import json
 import os
+import re
 import shutil
+import subprocess
 import time
 
 import vlib
@@ -169,6 +171,34 @@ def _run(prop, tier, prof, replay_path, t0, sd, work):
                 raise vlib.ToolError("the transcribed FIFO strategy violates C19 in the model "
                                      f"({fver.get('violated')}); no automatic replay for this model")
             verify["fifo_model"] = {k: fver.get(k) for k in ("distinct", "generated", "ok", "wall_s", "constants")}
+            # the same function checked symbolically (Apalache): every integer input with at most
+            # maxlen tables
+            if fm.get("apalache_maxlen"):
+                ta = time.time()
+                src = open(os.path.join(vlib.SPEC, "apalache", "LsmFifoApa.tla")).read()
+                src = re.sub(r"^MaxLen == \d+", f"MaxLen == {fm['apalache_maxlen']}", src, flags=re.M)
+                adir = os.path.join(work, "apa")
+                os.makedirs(adir, exist_ok=True)
+                with open(os.path.join(adir, "LsmFifoApa.tla"), "w") as fh:
+                    fh.write(src)
+                try:
+                    ar = subprocess.run(["apalache-mc", "check", "--length=0", "--inv=Inv",
+                                         f"--out-dir={adir}/out", "LsmFifoApa.tla"], cwd=adir,
+                                        stdout=subprocess.PIPE, stderr=subprocess.STDOUT, text=True,
+                                        timeout=fm.get("apalache_timeout", 900))
+                    aout = ar.stdout
+                except subprocess.TimeoutExpired:
+                    aout = "timeout"
+                aok = "The outcome is: NoError" in aout
+                log(f"[{prop}] FIFO strategy, symbolic (Apalache, <= {fm['apalache_maxlen']} tables, "
+                    f"unbounded integers): ok={aok} ({round(time.time()-ta, 1)}s)")
+                if "The outcome is: Error" in aout:
+                    log(aout[-2000:])
+                    raise vlib.ToolError("Apalache found an input for which the transcribed FIFO strategy "
+                                         "violates C19; no automatic replay for this model")
+                verify["fifo_model"]["symbolic"] = {"tool": "apalache-mc check --length=0 --inv=Inv",
+                                                    "max_tables": fm["apalache_maxlen"], "ok": aok,
+                                                    "completed": aok, "wall_s": round(time.time() - ta, 1)}
         # 2. generate behaviours
         driven = []
         for g in tp["gen"]:
